@@ -128,6 +128,13 @@ GroupChecks(e) ==
                   <<"(x, y) = [b 256^pos]B: scalar of the projection", TRUE,
                         Eq(FromBytes(e.k), ModL(IF e.b >= 0 THEN ShiftLeft(FromInt(e.b), 8 * e.pos)
                                                  ELSE Sub(MulSmall(L, 16), ShiftLeft(FromInt(-e.b), 8 * e.pos))))>> >>
+      [] e.f = "slidingtable" ->
+           \* nielsSlidingMultiples[i] = [2i + 1]B in niels form (used by DoubleScalarmultVartime for the B half)
+           LET x == FromBytes(e.ex)  y == FromBytes(e.ey)
+           IN  << <<"y - x", ToBytes(SubP(y, x), 32), e.ysubx>>,
+                  <<"y + x", ToBytes(AddP(y, x), 32), e.xaddy>>,
+                  <<"2 d x y", ToBytes(MulP(D2, MulP(x, y)), 32), e.t2d>>,
+                  <<"(x, y) = [2i + 1]B: scalar of the projection", TRUE, Eq(FromBytes(e.k), FromInt(2 * e.i + 1))>> >>
       [] e.f = "basemul" ->
            << <<"result = Enc([s]B) (projection; audited)", e.expected, e.out>>,
               <<"projection scalar = s mod L", TRUE, Eq(FromBytes(e.k), ModL(FromBytes(e.scalar)))>> >>
